@@ -3,7 +3,8 @@
 (* Trace validation for C08 / C09: what the real pymtl3 did with a design  *)
 (* is checked against Elab!Analysis of the design's descriptor.            *)
 (*                                                                         *)
-(* Trace := [d : descriptor (see Elab.tla), ev : Seq(Event)]               *)
+(* Trace := [p : "C08" | "C09", d : descriptor (see Elab.tla),             *)
+(*           ev : Seq(Event)]                                              *)
 (* Event := [k |-> "elab", out, nets, n]                                   *)
 (*            the outcome of elaborate() observed for n statement          *)
 (*            permutations / side flips of the design:                     *)
@@ -47,11 +48,16 @@ ObsNets  == {ToSet(Ev.nets[i][2]) : i \in DOMAIN Ev.nets}
 ObsPairs == {<<ToSet(Ev.nets[i][2]), Ev.nets[i][1]>> : i \in DOMAIN Ev.nets}
 ExpPairs == {<<N, exp.writer[N]>> : N \in exp.nets}
 
+\* T.p names the property the trace is validated for.  C09 is about accepting / rejecting (and the
+\* error class); which nets and writers an accepted design gets is C08's subject.  C08's premise
+\* is a design without defects (what happens to a design with defects is C09's subject).
 ElabEv ==
     /\ Ev.k = "elab"
-    /\ IF Ev.out = "ok"
+    /\ IF T.p = "C08" /\ exp.defects # {}                     THEN Step
+       ELSE IF Ev.out = "ok"
        THEN IF exp.unspec # {} /\ exp.defects # {}            THEN Step
             ELSE IF exp.defects # {}                          THEN Fail("illegal-design-accepted")
+            ELSE IF T.p = "C09"                               THEN Step
             ELSE IF ObsNets # exp.nets                        THEN Fail("nets-are-not-the-connected-components")
             ELSE IF ObsPairs # ExpPairs                       THEN Fail("wrong-writer")
             ELSE Step
@@ -60,13 +66,17 @@ ElabEv ==
             ELSE IF Ev.out \notin E!Images(exp.defects)       THEN Fail("wrong-error-class")
             ELSE Step
 
-\* NetCoherent: every member of a net carries the writer's value
+\* NetCoherent: every member of a net carries the writer's value.  (Nets with two members that
+\* share a bit are either a defect -- two overlapping driven members -- or a shape the statement
+\* is silent about -- a member overlapping the writer --, see Elab!Analysis: nothing is required.)
+SelfOverlap(N) == \E u, v \in N : u # v /\ E!OBits(T.d, u) \cap E!OBits(T.d, v) # {}
 SimEv ==
     /\ Ev.k = "sim"
     /\ LET V(o) == CHOOSE p \in ToSet(Ev.vals) : p[1] = o
            known == {p[1] : p \in ToSet(Ev.vals)}
-       IN  IF \E N \in exp.nets : ~(N \subseteq known)        THEN Fail("bad-trace-missing-value")
-           ELSE IF \E N \in exp.nets : exp.writer[N] # 0 /\
+       IN  IF exp.defects # {}                                THEN Step
+           ELSE IF \E N \in exp.nets : ~(N \subseteq known)   THEN Fail("bad-trace-missing-value")
+           ELSE IF \E N \in exp.nets : exp.writer[N] # 0 /\ ~SelfOverlap(N) /\
                       \E m \in N : V(m)[2] # V(exp.writer[N])[2] THEN Fail("net-incoherent")
            ELSE Step
 
